@@ -9,10 +9,14 @@
         ensures
             final(self).feasible(), //# process-preserves-feasibility
             final(self).same_problem(old(self)),
+            // if moreover x is row i of the training matrix: the support vectors stay distinct training rows
+            old(self).samples_ok() && i < old(self).x.nrows_spec() && x == old(self).x.row_spec(i as int)
+                ==> final(self).samples_ok(), //# process-keeps-support-vectors-distinct-training-rows
 //@enter
         proof { T::ops_total(); axiom_real::<T>(); lemma_sum_insert_front_all::<T, M::RowVector>(); }
 //@loop 1
             invariant *self == *old(self), self.feasible(),
+                forall|k: int| 0 <= k < j ==> (#[trigger] self.sv@[k]).index != i, //# process-scan-rules-out-sample-already-present
 //@loop 2
             invariant
                 T::obeys_sub_assign_spec(), T::obeys_mul_spec(),
